@@ -17,7 +17,7 @@ import (
 
 type c10hist struct {
 	First  uint64 `json:"first"`
-	Shapes []int  `json:"put_shapes"` // committed puts before the crashing operation
+	Shapes []int  `json:"put_shapes"`  // committed puts before the crashing operation
 	Last   string `json:"crashing_op"` // create | put:<shape> | wipe
 }
 
@@ -196,6 +196,12 @@ func runC10(chk *vcommon.Check, thorough bool) {
 					// OpenOrCreate / Create over an existing store with the same parameters must work; a
 					// CreateStore over a store that (already / still) exists may legitimately refuse.
 					if v == "create" && strings.Contains(err.Error(), "already initialized") {
+						// ... but only if there is a store: a datastore that OpenStore calls uninitialized and CreateStore
+						// calls initialized can be neither opened nor created (a node does OpenStore, then CreateStore)
+						if _, oerr := certstore.OpenStore(bg, dssync.MutexWrap(loadDS(img))); errors.Is(oerr, certstore.ErrNotInitialized) {
+							chk.Violation("crash-leaves-datastore-neither-openable-nor-creatable", fmt.Sprintf("%s: OpenStore says the datastore holds no store, CreateStore says it is already initialized: %v", where, err), rep)
+							return
+						}
 						continue
 					}
 					chk.Violation("crash-reopen-fails:"+h.Last[:3], fmt.Sprintf("%s: reopen failed: %v", where, err), rep)
